@@ -209,12 +209,14 @@ def parse_worker_output(text, variant, res, keep_hashes=False):
     return crashed, restart
 
 
+STATE_SAMPLE = {"quick": 1, "thorough": 64}
 CRASH_TOTAL = [0]
 CRASH_STORM = 60        # once this many crashes are collected the violation is established: stop restarting workers
 
 
 def run_chunk(args):
-    binary, variant, world, mode, seed, lo, hi, tmpdir, keep_hashes = args
+    binary, variant, world, mode, seed, lo, hi, tmpdir, keep_hashes = args[:9]
+    sample = args[9] if len(args) > 9 else 1
     res = BatchResult()
     cur = lo
     while cur < hi:
@@ -222,7 +224,8 @@ def run_chunk(args):
             break
         tag = f"{variant}-{world}-{mode}-{cur}"
         cmd = [binary, "run", world, str(mode), str(seed), str(cur), str(hi),
-               "--plans", os.path.join(tmpdir, "plans-" + tag), "--states", os.path.join(tmpdir, "states-" + tag)]
+               "--plans", os.path.join(tmpdir, "plans-" + tag), "--states", os.path.join(tmpdir, "states-" + tag),
+               "--state-sample", str(sample)]
         p = subprocess.run(cmd, stdout=subprocess.PIPE, stderr=subprocess.PIPE, text=True, errors="replace")
         crashed, restart = parse_worker_output(p.stdout, variant, res, keep_hashes)
         if crashed is None and restart is not None:
@@ -253,7 +256,7 @@ def merge_results(rs):
     return out
 
 
-def run_batch(bins, world, mode, seed, plan, tmpdir, keep_hashes=False, jobs=NCPU):
+def run_batch(bins, world, mode, seed, plan, tmpdir, keep_hashes=False, jobs=NCPU, sample=1):
     """plan: list of (variant, lo, hi). Returns merged BatchResult."""
     chunks = []
     for variant, lo, hi in plan:
@@ -263,7 +266,7 @@ def run_batch(bins, world, mode, seed, plan, tmpdir, keep_hashes=False, jobs=NCP
         csize = max(50, min(20000, n // (jobs * 3) + 1))
         c = lo
         while c < hi:
-            chunks.append((bins[variant], variant, world, mode, seed, c, min(hi, c + csize), tmpdir, keep_hashes))
+            chunks.append((bins[variant], variant, world, mode, seed, c, min(hi, c + csize), tmpdir, keep_hashes, sample))
             c += csize
     with ThreadPoolExecutor(jobs) as ex:
         rs = list(ex.map(run_chunk, chunks))
@@ -479,7 +482,7 @@ def do_check(prop, tier, seed, scale=1.0, jobs=NCPU):
             for v, share in b["variants"].items():
                 cnt = max(1, int(n * share))
                 plan.append((v, lo, lo + cnt)); lo += cnt
-            r = run_batch(bins, b["world"], b["mode"], seed, plan, tmpdir, jobs=jobs)
+            r = run_batch(bins, b["world"], b["mode"], seed, plan, tmpdir, jobs=jobs, sample=STATE_SAMPLE[tier])
             per_batch.append(dict(world=b["world"], mode=b["mode"], runs=r.runs,
                                   variants={v: hi - l for v, l, hi in plan}))
             for x in r.viols + r.crashes:
@@ -576,8 +579,9 @@ def do_check(prop, tier, seed, scale=1.0, jobs=NCPU):
                 logical_steps=total.steps,
                 runs_per_hour=int(total.runs / max(wall, 1e-3) * 3600),
                 simulated_time="none: the library has no clock; logical steps (operations / scheduling points) only",
-                distinct_abstract_states=distinct_states,
-                abstract_states_noted=n_states,
+                distinct_abstract_states=distinct_states * STATE_SAMPLE[tier],
+                abstract_states_rule=("exact count of distinct abstract-state hashes" if STATE_SAMPLE[tier] == 1 else
+                                      f"estimate: distinct hashes inside a 1/{STATE_SAMPLE[tier]} hash-prefix slice, times {STATE_SAMPLE[tier]} (bounds disk and memory in the thorough tier)"),
                 nontrivial_runs=total.nontrivial,
                 fault_and_reach_probes=probes,
                 required_probes_missing=missing,
